@@ -357,6 +357,40 @@ pub fn drive(args: &[String]) {
             hostile.push((kind.into(), "publish-long-tag-then-text", p, b"QUJD".to_vec(), F));
         }
     }
+    // the budget invariant of XmlLimit (trip <= limit + B) at the smallest buffer there is, B = 1: every octet is its own fill, so a
+    // limit that is off by one octet shows (with 8 KiB buffers the counter never stands on limit + 1 exactly).  The recording has
+    // two events per octet - too long for the trace specification - so the invariant is evaluated on it here.
+    for (kind, place, prefix, filler, _) in hostile.iter().filter(|h| h.4 == H && ["root-attr-value", "child-comments", "child-attr-value"].contains(&h.1)) {
+        let src = Endless { hard_stop: prefix.len() as u64 + 2 * H + 64, prefix: prefix.clone(), filler: filler.clone(), pos: 0, pulled: 0 };
+        let rd = BufReader::with_capacity(1, src);
+        verif_hook::start();
+        let r = guarded(|| match kind.as_str() {
+            "notification" => NotificationFile::parse(rd).is_ok(),
+            "snapshot" => Snapshot::parse(rd).is_ok(),
+            _ => Delta::parse(rd).is_ok(),
+        });
+        let evs = verif_hook::take();
+        let (mut trip, mut limit, mut worst) = (0u64, 0u64, 0u64);
+        for e in &evs {
+            match e {
+                Event::Reset => trip = 0,
+                Event::Limit(n) => limit = *n as u64,
+                Event::Consume(n) => { trip += *n as u64; if limit > 0 && trip > limit { worst = worst.max(trip - limit); } }
+                _ => {}
+            }
+        }
+        match r {
+            Err(m) => s.violation("hostile:panic", format!("{kind}/{place} (one-octet buffer): {m}"), json!({"kind": kind, "place": place})),
+            Ok(ok) => {
+                if ok { s.violation("hostile:accepted", format!("{kind}/{place}: endless input accepted"), json!({"kind": kind, "place": place})); }
+                if worst > 1 {
+                    s.violation(&format!("hostile:unbounded:{kind}:{place}:octet-buffer"), format!("{kind}/{place} read through a one-octet buffer: {worst} octets consumed beyond the limit, the limit plus one buffer allows 1"),
+                                json!({"kind": kind, "place": place, "beyond": worst}));
+                }
+            }
+        }
+        s.eval(Some(&format!("{kind}/{place}/b1")));
+    }
     for (kind, place, prefix, filler, limit) in hostile {
         if limit == F && !full && place != "publish-text" && !(place == "publish-long-tag-then-text" && kind == "snapshot") {
             continue; // the 100 MB budgets: one representative in the quick tier, all of them with --full-size 1
